@@ -312,8 +312,25 @@ def judge_set(ctx, shape, which, vals, value_kind, seed):
         value = list(np.arange(rest[-1], dtype=float) + 100)
         if len(rest) > 1:
             value = np.arange(int(np.prod(rest)), dtype=float).reshape(rest) + 100
-    else:
+    elif value_kind == "tuple":
         value = tuple(float(x) for x in np.arange(rest[-1]) + 50) if len(rest) == 1 else 3.25
+    else:
+        # the value as other code hands it over; each of these is accepted by the slice assignment the function is
+        # documented to perform (numpy broadcasting: leading axes of length one are dropped, labels are ignored)
+        base = np.arange(int(np.prod(rest)), dtype=float).reshape(rest) + 200 if rest else np.array(7.5)
+        if value_kind == "leading_singleton_axes":
+            value = base.reshape((1,) * (1 + seed % 2) + base.shape)
+        elif value_kind == "zero_d_array":
+            value = np.array(4.75)
+        elif value_kind == "masked_array":
+            value = np.ma.masked_array(base, mask=(np.arange(base.size).reshape(base.shape) % 2 == 0)) if base.ndim else np.ma.masked_array([6.5], mask=[True])
+        elif value_kind == "dataarray_own_coords":
+            rd = [d for d in dims if d not in query]
+            value = xr.DataArray(base, dims=rd, coords={d: 1000.0 + np.arange(n) for d, n in zip(rd, base.shape)}) if base.ndim else xr.DataArray(7.5)
+        elif value_kind == "dataarray_other_dim_names":
+            value = xr.DataArray(base)           # dim_0, dim_1, ...
+        else:
+            value = base.astype(np.float32)
     spec = {"kind": "set", "shape": list(shape), "which": list(which), "vals": list(vals), "value_kind": value_kind, "seed": seed}
     try:
         O.set_value_at_pos(arr, value, **query)
@@ -328,6 +345,10 @@ STEPS = [1.0, 0.5, 0.1, 0.01, 1 / 3, 1 / 44100, 7.3, 0.25, 1 / 22050, 1 / 48000,
 def run(ctx):
     install()
     rng = ctx.rng
+    from rv.props import concurrent_jobs
+
+    concurrent_jobs.run_some(ctx, "C16")        # the same calls from a thread pool (rv/core/threads.py)
+    ctx.must_monitors.append("concurrent_calls")
     ctx.rule = ("range: (start, stop, step|size, constructor); index: (coordinates, query, raise flag); set: (shape, query, value); "
                 "non-trivial = non-integer step / query not on a coordinate / >= 2-D array; distinct = distinct case spec")
     ctx.assumptions += [
@@ -500,7 +521,7 @@ def run(ctx):
         dims = ["time", "frequency", "channel"][:nd]
         which = rng.sample(dims, rng.randint(1, nd))
         vals = [rng.choice([0.0, 1.0, rng.random(), rng.random()]) for _ in which]
-        vk = rng.choice(["scalar", "vector", "tuple"])
+        vk = rng.choice(["scalar", "vector", "tuple", "leading_singleton_axes", "zero_d_array", "masked_array", "dataarray_own_coords", "dataarray_other_dim_names", "float32_array"])
         seed = rng.getrandbits(30)
         ctx.case(("set", nd, len(which), vk), {"kind": "set", "shape": shape, "which": which, "vals": vals, "value_kind": vk, "seed": seed},
                  nontrivial=nd >= 2)
